@@ -37,9 +37,13 @@ def _verify(arg):
             return verify_lemma(reg, reg.lemmas[name])
         if kind == "static":
             return reg.statics[name][0](reg)
+        if kind == "step":
+            from pyvc.api import verify_step
+
+            return verify_step(reg, reg.steps[name])
         return verify_contract(reg, reg.contracts[name])
     except Exception:
-        return {"contract": {"lemma": "lemma:", "static": "static:"}.get(kind, "") + name, "status": "engine-error", "unsupported": traceback.format_exc(limit=8),
+        return {"contract": {"lemma": "lemma:", "static": "static:", "step": "step:"}.get(kind, "") + name, "status": "engine-error", "unsupported": traceback.format_exc(limit=8),
                 "obligations": [], "props": [], "functions": [], "assumed_contracts": [], "inlined": [], "paths": 0, "covers": 0, "solver_time_s": 0}
 
 
@@ -74,6 +78,9 @@ def items_for(reg, prop, tier="thorough"):
     for n, (fn, props) in reg.statics.items():
         if prop in props:
             out.append(("static", n))
+    for n, l in reg.steps.items():
+        if prop in l.props:
+            out.append(("step", n))
     return out
 
 
@@ -154,7 +161,7 @@ def run_items(items, jobs=16, limit_s=None):
         res = raw.get(it)
         if _is_fail(res):
             kind, name = it
-            out.append({"contract": {"lemma": "lemma:", "static": "static:"}.get(kind, "") + name,
+            out.append({"contract": {"lemma": "lemma:", "static": "static:", "step": "step:"}.get(kind, "") + name,
                         "status": "undecided" if res[0] == "__timeout__" else "engine-error", "unsupported": res[1], "obligations": [],
                         "props": [], "functions": [], "assumed_contracts": [], "inlined": [], "paths": 0, "covers": 0, "solver_time_s": 0})
         else:
@@ -180,7 +187,7 @@ def run(prop, tier="quick", seed=0, jobs=16):
     native_jobs = []
     for r in results:
         name = r["contract"]
-        if name.startswith("lemma:") or name.startswith("static:") or name not in reg.contracts:
+        if name.startswith("lemma:") or name.startswith("static:") or name.startswith("step:") or name not in reg.contracts:
             continue
         c = reg.contracts[name]
         if c.status == "assumed":
@@ -282,7 +289,7 @@ def _samples(results):
 
 def relock(props=None):
     reg = load_all_contracts()
-    items = [("contract", n) for n in reg.contracts] + [("lemma", n) for n in reg.lemmas] + [("static", n) for n in reg.statics]
+    items = [("contract", n) for n in reg.contracts] + [("lemma", n) for n in reg.lemmas] + [("static", n) for n in reg.statics] + [("step", n) for n in reg.steps]
     results = run_items(items, limit_s=1500)
     led = {}
     for r in results:
